@@ -282,16 +282,19 @@ def timerNext (interval : Nat) (sharp : Bool) (a : Attempt) : Int :=
     if sharp then a.merged + (interval - (a.merged - a.time) % interval) else a.merged + interval
   else wakeTime a.recAfter a.merged
 
-/-- The whole life of a timer. `if state.done: state = State.from_scratch()` at the top of the loop
-    resets the record after EVERY finished series — a failed one too (the comment beside it and
-    docs/timers.rst say a failed timer is kept/stops for ever; the code does not do that). -/
+/-- The whole life of a timer. At the top of the loop `if state.done and not state.counts.failure:
+    state = State.from_scratch()` starts a new retry series after a SUCCEEDED one; a series that has
+    failed for good is kept: `execute_handlers_once` finds nothing awakened in it ever again (the
+    loop only keeps sleeping its interval), so the function is not invoked any more. -/
 def timerRun (env : Env) (l : Limits) (interval : Nat) (sharp : Bool) :
     Int → Rec → List (Raised × Nat) → List Attempt
   | _, _, [] => []
   | now, r, (x, dur) :: rest =>
-      let r0 := if r.finished then fromScratch now else r
-      let a := attemptAt env l now r0 x dur 0
-      a :: timerRun env l interval sharp (timerNext interval sharp a) a.recAfter rest
+      if r.failure then []
+      else
+        let r0 := if r.finished then fromScratch now else r
+        let a := attemptAt env l now r0 x dur 0
+        a :: timerRun env l interval sharp (timerNext interval sharp a) a.recAfter rest
 
 /-- Restarts are nothing but time passing for the persisted record: fold every downtime into the
     next cycle's `dt` (trailing restarts vanish). -/
